@@ -592,7 +592,7 @@ impl State {
 
                 // Normalise probabilities
                 let total_probability: f64 = probabilities.iter().sum();
-                if total_probability < f64::EPSILON {
+                if !(total_probability > 0.0) {
                     return Err(Error::UnknownError);
                 }
                 let normalised_probabilities: Vec<f64> = probabilities
